@@ -569,6 +569,11 @@ def iter_concrete(it, v):
         return list(v)
     if isinstance(v, (Opt, Maybe)):
         raise OutOfSubset("iteration over an optional value")
+    if isinstance(v, SRef):
+        h = getattr(it, "ref_unpack", {}).get(v.kind.name)
+        if h is None:
+            raise OutOfSubset(f"unpacking of opaque {v.kind.name}")
+        return list(h(it, v))
     if isinstance(v, (SSeq, SSet, MutSet, SStr)):
         if isinstance(v, MutSet) and v.val is None:
             return []
